@@ -59,6 +59,10 @@ CLAIMS["C18"] = ("effect analysis over the evaluator's event log (purity, statel
     "Decides for all 13 filter classes, with and without a symbol table, on every path: no mutation of the input frame or alias; no attribute store on the filter inside __call__ (no call-to-call state); every returned frame is the input, a mask selection of it built from its own rows, or pd.DataFrame() on a no-match path - never re-ordered, re-indexed, or extended; each filter's selection predicate equals the documented one (membership, full containment in the time range, anchored str.match, ids of matching symbols of the given table, device/host side as 18-case tables, memcpy name&cat); only the iteration-index filters depend on the whole frame and they sort the distinct iterations; CompositeFilter threads the frame through its members in order; the string-column test accepts every pandas string dtype.",
     "3/C18")
 
+CLAIMS["C03"] = ("finite-domain abstract interpretation: symbolic path enumeration of both comparators, observation-discipline check, complete decision tables on canonical representatives of all equal-time endpoint pairs/triples (quadruples in the thorough tier), order-law checking; AST discipline rules for both builders; encoding agreement",
+    "Decides that both endpoint comparators are total and antisymmetric on every realisable equal-time pair (CLOSE/CLOSE may tie), satisfy the property's tie rules (closing before opening for positive spans, longer span opens first, identical spans in file order, shorter span closes first, a zero-duration event opens before it closes and never separates a positive endpoint's two sides), order different instants by time, agree with each other on every tree-relevant pair, and are free of 3-cycles except for the recorded known finding (zero-duration endpoint, positive CLOSE, positive OPEN at one instant - both comparators); that both builders sort with the analysed comparator before a scan that pushes exactly once with parent = stack top (root when empty) on OPEN and pops exactly once, unconditionally but for emptiness, on CLOSE; and that array layout / marker constants / Event field order agree between writer, comparator and scan. Given these, sorted() yields the bracket sequence of the nesting (paper argument); sorted() itself is trusted.",
+    "3/C03")
+
 REASON_WIP = "checker under construction in this session (see DESIGN.md section 3); not claimed until its check is committed"
 
 
